@@ -199,8 +199,55 @@ fn instance(family: &str, n: usize, m: usize) -> (Vec<u8>, Vec<u8>) {
         "dense_1byte" => (b"a".to_vec(), vec![b'a'; n]),
         "dense_2byte" => (b"aa".to_vec(), vec![b'a'; n]),
         "dense_empty" => (vec![], vec![b'a'; n]),
+        // "rle-<first letter>-<runs>": the needle given by its run-length
+        // encoding over alternating letters a/b; each run is 1, 2, K-1 (j),
+        // K (k) or K+1 (l) bytes with K chosen so that the needle has about m
+        // bytes. The haystack repeats the needle with its last byte replaced.
+        _ if family.starts_with("rle-") => {
+            let parts: Vec<&str> = family.split('-').collect();
+            let first = parts[1].as_bytes()[0];
+            let runs = parts[2].as_bytes();
+            let big = runs.iter().filter(|c| matches!(**c, b'j' | b'k' | b'l')).count().max(1);
+            let k = (m / big).max(3);
+            let mut nd = vec![];
+            let mut letter = first;
+            for &c in runs {
+                let len = match c {
+                    b'1' => 1,
+                    b'2' => 2,
+                    b'j' => k - 1,
+                    b'k' => k,
+                    b'l' => k + 1,
+                    _ => panic!("bad run symbol"),
+                };
+                nd.extend(std::iter::repeat(letter).take(len));
+                letter = if letter == b'a' { b'b' } else { b'a' };
+            }
+            let mut u = nd.clone();
+            *u.last_mut().unwrap() = b'c';
+            (nd, rep(&u, n))
+        }
         _ => panic!("unknown family {}", family),
     }
+}
+
+/// Every run-length shape of at most `maxruns` runs over the given symbols.
+fn rle_shapes(symbols: &[u8], maxruns: usize) -> Vec<String> {
+    let mut out = vec![];
+    let mut level: Vec<String> = vec![String::new()];
+    for _ in 0..maxruns {
+        let mut next = vec![];
+        for s in &level {
+            for &c in symbols {
+                let mut t = s.clone();
+                t.push(c as char);
+                next.push(t);
+            }
+        }
+        out.extend(next.iter().cloned());
+        level = next;
+    }
+    out
 }
 
 const OPS: [&str; 8] = ["find", "rfind", "find_iter", "rfind_iter", "memmem_find", "memmem_rfind", "find_nopre", "find_iter_nopre"];
@@ -248,6 +295,20 @@ fn main() {
     let a: Vec<String> = std::env::args().skip(1).collect();
     if a.first().map(|s| s.as_str()) == Some("list") {
         let thorough = a.get(1).map(|s| s == "thorough").unwrap_or(false);
+        // needle construction (and one search) for EVERY run-length shape of
+        // the needle up to a number of runs: the inputs on which the
+        // suffix / period computations take their different branches
+        let (symbols, maxruns, firsts): (&[u8], usize, &[u8]) = if thorough { (b"1jkl", 5, b"ab") } else { (b"1kl", 4, b"a") };
+        for shape in rle_shapes(symbols, maxruns) {
+            if !shape.bytes().any(|c| c != b'1') {
+                continue;
+            }
+            for &f in firsts {
+                for op in ["find", "rfind"] {
+                    println!("{} rle-{}-{} {} {}", op, f as char, shape, 8192, 3000);
+                }
+            }
+        }
         let ns: &[usize] = if thorough { &[1 << 12, 1 << 14, 1 << 16, 1 << 18, 1 << 20] } else { &[1 << 12, 1 << 15] };
         let ms: &[usize] = if thorough { &[8, 24, 32, 33, 64, 200, 250, 1000, 4000, 16000] } else { &[8, 32, 33, 250, 1000, 4000, 8000] };
         for fam in FAMILIES {
